@@ -1,4 +1,4 @@
-import RainModel.Lemmas.LoopInv
+import RainModel.Lemmas.LoopWritten
 /-!
 Soundness of the bitfield and of the resume bitfield (C01/C05): preservation by every handler.
 -/
@@ -201,11 +201,8 @@ theorem stopAlloc_bf (s : St) : (stopAlloc s).bf = s.bf ∨ (stopAlloc s).bf = n
   split
   · dsimp only
     split
+    · right; rfl
     · left; rfl
-    · dsimp only
-      split
-      · right; rfl
-      · left; rfl
   · left; rfl
 
 theorem stopAlloc_persisted (s : St) : (stopAlloc s).persisted = s.persisted ∨ (stopAlloc s).persisted = none := by
@@ -213,11 +210,8 @@ theorem stopAlloc_persisted (s : St) : (stopAlloc s).persisted = s.persisted ∨
   split
   · dsimp only
     split
+    · right; rfl
     · left; rfl
-    · dsimp only
-      split
-      · right; rfl
-      · left; rfl
   · left; rfl
 
 theorem stop_bf (s : St) (e : Bool) : (s.stop e).bf = s.bf ∨ (s.stop e).bf = none := by
@@ -268,19 +262,16 @@ theorem stopAlloc_fe (s : St) :
   split
   · dsimp only
     split
-    · exact Or.inr ⟨rfl, fun _ h => h⟩
-    · dsimp only
-      split
-      · exact Or.inl rfl
-      · next hany =>
-        refine Or.inr ⟨rfl, fun f hf => ?_⟩
-        rw [getD_map_range] at hf
-        simp only [Bool.and_eq_true, decide_eq_true_eq, Bool.or_eq_true] at hf
-        rcases hf.2 with h | h
-        · exact h
-        · simp only [Bool.not_eq_true, List.any_eq_false] at hany
-          have := hany f (by simpa using h)
-          simpa using this
+    · exact Or.inl rfl
+    · next hany =>
+      refine Or.inr ⟨rfl, fun f hf => ?_⟩
+      rw [getD_map_range] at hf
+      simp only [Bool.and_eq_true, decide_eq_true_eq, Bool.or_eq_true] at hf
+      rcases hf.2 with h | h
+      · exact h
+      · simp only [Bool.not_eq_true, List.any_eq_false] at hany
+        have := hany f (by simpa using h)
+        simpa using this
   · exact Or.inr ⟨rfl, fun _ h => h⟩
 
 theorem stop_fe (s : St) (e : Bool) :
@@ -551,32 +542,58 @@ theorem handleAllocationDone_missing (m : M) (ex : Bool) (h : Sound0 m.1) :
   · rw [hnone] at hb; cases hb
   · exact hok
 
+/-- An allocation whose `Open` fails part-way: either no file came into existence, or the bitfield is forgotten
+(fix for finding C05-F2), then `stop(err)`. -/
+theorem allocFail_adv (m : M) : Adv m.1 (allocFail m).1 := by
+  have hst : (allocFail m).1 = ((hadForget (allocFailOpen m) (allocFailMissing m.1)).1).stop true := by simp [allocFail]
+  rw [hst]
+  refine Adv.trans ?_ (stop_adv _ true)
+  have e5 : ∀ f, (allocFailOpen m).1.fileExists.getD f false = (decide (f < m.1.cfg.flens.length) &&
+      (m.1.fileExists.getD f false || ((allocData m.1).take m.1.failAt).contains f)) := by
+    intro f; simp only [allocFailOpen, onSt_fst]; exact getD_map_range _ _ f
+  cases hmiss : allocFailMissing m.1
+  · have hx : (hadForget (allocFailOpen m) false).1 = (allocFailOpen m).1 := by simp [hadForget]
+    rw [hx]
+    refine ⟨by simp, fun x hx => by simpa using hx, fun i hi => Or.inl ⟨by simpa using hi, fun x _ _ hF => ?_⟩,
+      fun i hi => Or.inl (by simpa using hi), fun hl => hl.of_eq (by simp) (Or.inl (by simp)),
+      fun _ _ _ hc => by simpa using hc⟩
+    rw [e5] at hF
+    simp only [Bool.and_eq_true, decide_eq_true_eq, Bool.or_eq_true] at hF
+    rcases hF.2 with hF | hF
+    · exact hF
+    · unfold allocFailMissing at hmiss
+      simp only [List.any_eq_false, Bool.not_eq_true] at hmiss
+      have := hmiss x.2 (by simpa using hF)
+      simpa using this
+  · have hnone : (hadForget (allocFailOpen m) true).1.bf = none := by
+      unfold hadForget
+      simp only [onSt_fst, Bool.true_and]
+      split
+      · rfl
+      · next hn => simpa using hn
+    refine ⟨by simp, fun x hx => by simpa using hx, fun i hi => (by rw [hnone] at hi; cases hi), fun i hi => ?_,
+      fun hl => hl.of_eq (by simp) (Or.inr hnone), fun _ _ _ hc => (by simpa using hc)⟩
+    rcases (hadForget_adv (allocFailOpen m) true).per i hi with h | h | h
+    · exact Or.inl (by simpa using h)
+    · exact Or.inr (Or.inl (by simpa using h))
+    · exact Or.inr (Or.inr h)
+
 theorem allocatorRun_adv (m : M) (h : Sound0 m.1) : Adv m.1 (allocatorRun m).1 := by
-  unfold allocatorRun
-  dsimp only
+  rw [allocatorRun_eq]
   split
-  · simp only [onSt_fst]
-    exact stop_adv' _ _ _ rfl rfl rfl rfl rfl
+  · exact allocFail_adv m
   · -- the state after the allocator has opened (created) every file
-    generalize hm1 : (onSt m fun s => { s with
-        sto := s.sto ++ ((List.range m.1.cfg.flens.length).filter (fun i => !(m.1.cfg.fpads.getD i false))).map (fun i =>
-          s!"open:{fileName s.cfg i}:{s.cfg.flens.getD i 0}:" ++ (if s.fileExists.getD i false then "existed" else "new")),
-        fileExists := (List.range s.cfg.flens.length).map (fun i => s.fileExists.getD i false ||
-          ((List.range m.1.cfg.flens.length).filter (fun i => !(m.1.cfg.fpads.getD i false))).contains i),
-        known := (List.range s.cfg.flens.length).map (fun i => s.known.getD i false ||
-          ((List.range m.1.cfg.flens.length).filter (fun i => !(m.1.cfg.fpads.getD i false))).contains i) }) = m1
+    generalize hm1 : allocOkOpen m = m1
     have e1 : m1.1.cfg = m.1.cfg := by subst hm1; simp
     have e2 : m1.1.bad = m.1.bad := by subst hm1; simp
     have e3 : m1.1.bf = m.1.bf := by subst hm1; simp
     have e4 : m1.1.persisted = m.1.persisted := by subst hm1; simp
     have e6 : m1.1.completed = m.1.completed := by subst hm1; simp
     have e5 : ∀ f, m1.1.fileExists.getD f false = (decide (f < m.1.cfg.flens.length) &&
-        (m.1.fileExists.getD f false ||
-          ((List.range m.1.cfg.flens.length).filter (fun i => !(m.1.cfg.fpads.getD i false))).contains f)) := by
-      intro f; subst hm1; simp only [onSt_fst]; exact getD_map_range _ _ f
+        (m.1.fileExists.getD f false || (allocData m.1).contains f)) := by
+      intro f; subst hm1; simp only [allocOkOpen, onSt_fst]; exact getD_map_range _ _ f
     have h1 : Sound0 m1.1 := ⟨e1 ▸ h.cfg, fun x hx => by rw [e1]; exact h.bad x (e2 ▸ hx)⟩
-    cases hmiss : ((List.range m.1.cfg.flens.length).filter (fun i => !(m.1.cfg.fpads.getD i false))).any
-        (fun i => !(m.1.fileExists.getD i false))
+    cases hmiss : (allocData m.1).any (fun i => !(m.1.fileExists.getD i false))
     · -- nothing was missing: no file came into existence
       have a1 : Adv m.1 m1.1 := by
         refine ⟨e1, fun x hx => e2 ▸ hx, fun i hi => Or.inl ⟨e3 ▸ hi, fun x _ _ hF => ?_⟩, fun i hi => Or.inl (e4 ▸ hi),
@@ -590,8 +607,7 @@ theorem allocatorRun_adv (m : M) (h : Sound0 m.1) : Adv m.1 (allocatorRun m).1 :
           simpa using this
       exact a1.trans (handleAllocationDone_adv m1 _ _ h1)
     · -- files were missing: every bit afterwards is justified by the disk
-      have a := handleAllocationDone_adv m1 ((((List.range m.1.cfg.flens.length).filter
-        (fun i => !(m.1.cfg.fpads.getD i false))).any fun i => m.1.fileExists.getD i false)) true h1
+      have a := handleAllocationDone_adv m1 ((allocData m.1).any fun i => m.1.fileExists.getD i false) true h1
       have hnb : NoBit m.1 → NoBit m1.1 := fun hn i hi => by rw [e3]; exact hn i (e1 ▸ hi)
       refine ⟨a.cfg.trans e1, fun x hx => e2 ▸ a.bad x hx, fun i hi => Or.inr (handleAllocationDone_missing m1 _ h1 i hi),
         fun i hi => ?_, fun hl => a.len (hl.of_eq e1 (Or.inl e3)),
@@ -688,7 +704,7 @@ theorem pwdOk_adv (m : M) (w : WriteJob) (b : List Bool) (hb : m.1.bf = some b)
   exact (((pwdSet_adv m w b hb hok).trans (pwdOthers_adv _ _)).trans (pwdHaves_adv _ _)).trans (pwdFinish_adv _)
 
 theorem handlePieceWriteDone_adv (m : M) (w : WriteJob) (e : Bool)
-    (hok : w.good = true → e = false → m.1.diskOKi w.piece = true) :
+    (hok : w.good = true → e = false → w.gen = m.1.gen → m.1.loaded = true → m.1.diskOKi w.piece = true) :
     Adv m.1 (handlePieceWriteDone m w e).1 := by
   rw [handlePieceWriteDone_eq]
   dsimp only
@@ -696,16 +712,21 @@ theorem handlePieceWriteDone_adv (m : M) (w : WriteJob) (e : Bool)
   · adv_frame
   · next hg =>
     split
-    · simp only [onSt_fst]
-      exact stop_adv' _ _ _ rfl rfl rfl rfl rfl
-    · next he =>
-      have hok' := hok (by simpa using hg) (by simpa using he)
+    · adv_frame
+    · next hst =>
+      simp only [Bool.or_eq_true, ne_eq, decide_eq_true_eq, Bool.not_eq_true', not_or, Decidable.not_not,
+        Bool.not_eq_false] at hst
       split
-      · adv_frame
-      · next b hb =>
-        have h1 : Adv m.1 (pwdDone (pwdReset m w) w).1 := by adv_frame
-        refine h1.trans (pwdOk_adv _ w b hb ?_)
-        simpa using hok'
+      · simp only [onSt_fst]
+        exact stop_adv' _ _ _ rfl rfl rfl rfl rfl
+      · next he =>
+        have hok' := hok (by simpa using hg) (by simpa using he) (by simpa using hst.1) (by simpa using hst.2)
+        split
+        · adv_frame
+        · next b hb =>
+          have h1 : Adv m.1 (pwdDone (pwdReset m w) w).1 := by adv_frame
+          refine h1.trans (pwdOk_adv _ w b hb ?_)
+          simpa using hok'
 
 theorem writerRun_adv (m : M) (w : WriteJob) (h : Sound0 m.1) : Adv m.1 (writerRun m w).1 := by
   unfold writerRun
@@ -714,7 +735,7 @@ theorem writerRun_adv (m : M) (w : WriteJob) (h : Sound0 m.1) : Adv m.1 (writerR
   · dsimp only
     split
     · next hsecs =>
-      refine handlePieceWriteDone_adv m _ false fun hg _ => diskOKi_of_no_data m.1 h.bad _ ?_ ?_
+      refine handlePieceWriteDone_adv m _ false fun hg _ _ _ => diskOKi_of_no_data m.1 h.bad _ ?_ ?_
       · intro sc hsc
         have : sc ∉ (m.1.cfg.sections w.piece).filter fun sc => !(m.1.cfg.fpads.getD sc.file false) := by
           rw [hsecs]; exact List.not_mem_nil
@@ -723,7 +744,8 @@ theorem writerRun_adv (m : M) (w : WriteJob) (h : Sound0 m.1) : Adv m.1 (writerR
         simp [Cfg.isData, this]
       · simp only [Bool.and_eq_true] at hg
         exact hg.2
-    · split
+    · next sc l hsecs =>
+      split
       · refine Adv.trans ?_ (handlePieceWriteDone_adv _ w true (fun _ h => by cases h))
         exact Adv.frame rfl rfl rfl rfl rfl
       · split
@@ -738,13 +760,14 @@ theorem writerRun_adv (m : M) (w : WriteJob) (h : Sound0 m.1) : Adv m.1 (writerR
               fun _ _ _ hc => by simpa using hc⟩
             simp only [onSt_fst, List.mem_filter] at hx
             exact hx.1
-          refine a1.trans (handlePieceWriteDone_adv _ w false fun _ _ => ?_)
-          have hpad : m.1.cfg.padOK w.piece = true := padOK_of_stored (by rw [‹List.filter _ _ = _ :: _›]; simp)
-          simp [St.diskOKi, hpad]
+          split
+          · exact a1.trans (Adv.frame rfl rfl rfl rfl rfl)
+          · refine a1.trans (handlePieceWriteDone_adv _ w false fun _ _ _ _ => ?_)
+            exact written_diskOKi m.1 w.piece sc l hsecs _ (by simp) (by simp)
 
 /-! ### Workers, handle, step -/
 
-theorem runWorkers_adv (fuel : Nat) (m : M) (h : Sound0 m.1) : Adv m.1 (runWorkers fuel m).1 := by
+theorem runWorkers_adv (fuel : Nat) (m : M) (h : Sound0 m.1) (hw : WrOK m.1) : Adv m.1 (runWorkers fuel m).1 := by
   induction fuel generalizing m with
   | zero => exact Adv.refl _
   | succ n ih =>
@@ -752,17 +775,32 @@ theorem runWorkers_adv (fuel : Nat) (m : M) (h : Sound0 m.1) : Adv m.1 (runWorke
     dsimp only
     split
     · exact Adv.refl _
-    · split
-      · exact (handleStopped_adv m).trans (ih _ (h.adv (handleStopped_adv m)))
+    split
+    · next hs =>
+      simp only [Bool.and_eq_true] at hs
+      exact (handleStopped_adv m).trans (ih _ (h.adv (handleStopped_adv m)) (handleStopped_wrOK m hw hs.1))
+    split
+    · next ha =>
+      simp only [Bool.and_eq_true] at ha
+      exact (allocatorRun_adv m h).trans (ih _ (h.adv (allocatorRun_adv m h)) (allocatorRun_wrOK m hw ha.1))
+    split
+    · next hv =>
+      simp only [Bool.and_eq_true] at hv
+      exact (handleVerificationDone_adv m).trans
+        (ih _ (h.adv (handleVerificationDone_adv m)) (handleVerificationDone_wrOK m hw hv.1))
+    split
+    · next w hwr =>
+      split
+      · next hwritten =>
+        split
+        · -- a held result is delivered: its bytes are on disk if it is still current
+          have a := handlePieceWriteDone_adv m w false (fun _ _ hg hl => hw.ok w hwr hwritten hg hl)
+          exact a.trans (ih _ (h.adv a) (handlePieceWriteDone_wrOK m w false hw))
+        · exact Adv.refl _
       · split
-        · exact (allocatorRun_adv m h).trans (ih _ (h.adv (allocatorRun_adv m h)))
-        · split
-          · exact (handleVerificationDone_adv m).trans (ih _ (h.adv (handleVerificationDone_adv m)))
-          · split
-            · split
-              · exact (writerRun_adv m _ h).trans (ih _ (h.adv (writerRun_adv m _ h)))
-              · exact Adv.refl _
-            · exact Adv.refl _
+        · exact (writerRun_adv m _ h).trans (ih _ (h.adv (writerRun_adv m _ h)) (writerRun_wrOK m w hw hwr))
+        · exact Adv.refl _
+    · exact Adv.refl _
 
 /-- The stop command (fix C04-F6): the pending verification request is withdrawn, then `stop`. -/
 theorem stopCmd_adv (s : St) : Adv s (({ s with doVerify := false }).stop false) :=
@@ -797,45 +835,54 @@ theorem handle_adv (s : St) (p : Parked) (kn : Nat → Bool) (op : Op) (hop : op
        · exact Adv.of_eq rfl rfl rfl (Or.inl rfl) (Or.inr (Or.inr rfl))
        · apply Adv.frame <;> simp)
 
-theorem deliverParked_adv (m : M) (p : Parked) (h : Sound0 m.1) : Adv m.1 (deliverParked m p).1.1 := by
+theorem deliverParked_adv (m : M) (p : Parked) (h : Sound0 m.1) (hw : WrOK m.1) : Adv m.1 (deliverParked m p).1.1 := by
   unfold deliverParked
-  repeat' split
-  all_goals first
-    | exact Adv.refl _
-    | exact (handlePieceMessage_adv ..).trans (runWorkers_adv _ _ (h.adv (handlePieceMessage_adv ..)))
+  split
+  · split
+    · split
+      · next hk =>
+        have hr : Running m.1 := hw.running_of_peer (by
+          intro hn; rw [Option.isNone_iff_eq_none] at hn; rw [hn] at hk; cases hk)
+        exact (handlePieceMessage_adv ..).trans (runWorkers_adv _ _ (h.adv (handlePieceMessage_adv ..))
+          (handlePieceMessage_wrOK _ _ _ _ _ _ hw hr))
+      · exact Adv.refl _
+    · exact Adv.refl _
+  · exact Adv.refl _
 
 /-- **Every event except an external change of the files is an admissible successor step**: the disk
 never gets worse, every new bit and every new resume bit is justified by the disk. -/
 theorem step_adv (s : St) (p : Parked) (kn : Nat → Bool) (op : Op) (hop : op.isMutate = false)
-    (h : Sound0 s) : Adv s (step s p kn op).1.st := by
+    (h : Sound0 s) (hw : WrOK s) : Adv s (step s p kn op).1.st := by
   unfold step
   have a0 : Adv s { s with sto := [], mayStart := [], closedDl := [], mayStartI := false } :=
     Adv.frame rfl rfl rfl rfl rfl
+  have w0 : WrOK { s with sto := [], mayStart := [], closedDl := [], mayStartI := false } := by wr_frame hw
   have a1 := a0.trans (handle_adv _ p kn op hop)
-  have a2 := a1.trans (runWorkers_adv 12 _ (h.adv a1))
+  have w1 := handle_wrOK _ p kn op w0
+  have a2 := a1.trans (runWorkers_adv 12 _ (h.adv a1) w1)
   dsimp only
   split
-  · exact a2.trans (deliverParked_adv _ _ (h.adv a2))
+  · exact a2.trans (deliverParked_adv _ _ (h.adv a2) (runWorkers_wrOK 12 _ w1))
   · exact a2
 
-theorem dstep_adv (sp : St × Parked) (e : Ev) (hop : e.op.isMutate = false) (h : Sound0 sp.1) :
+theorem dstep_adv (sp : St × Parked) (e : Ev) (hop : e.op.isMutate = false) (h : Sound0 sp.1) (hw : WrOK sp.1) :
     Adv sp.1 (dstep sp e).1 := by
   unfold dstep
-  exact ((step_adv sp.1 sp.2 e.known e.op hop h).trans (reconcile_adv _ _)).trans (reconcileIdl_adv _ _)
+  exact ((step_adv sp.1 sp.2 e.known e.op hop h hw).trans (reconcile_adv _ _)).trans (reconcileIdl_adv _ _)
 
 /-- **Soundness is preserved by every event except an external change of the files.** -/
 theorem step_sound (s : St) (p : Parked) (kn : Nat → Bool) (op : Op) (hop : op.isMutate = false)
-    (h : Sound s) : Sound (step s p kn op).1.st := h.adv (step_adv s p kn op hop h.zero)
+    (h : Sound s) (hw : WrOK s) : Sound (step s p kn op).1.st := h.adv (step_adv s p kn op hop h.zero hw)
 
-theorem dstep_sound (sp : St × Parked) (e : Ev) (hop : e.op.isMutate = false) (h : Sound sp.1) :
-    Sound (dstep sp e).1 := h.adv (dstep_adv sp e hop h.zero)
+theorem dstep_sound (sp : St × Parked) (e : Ev) (hop : e.op.isMutate = false) (h : Sound sp.1) (hw : WrOK sp.1) :
+    Sound (dstep sp e).1 := h.adv (dstep_adv sp e hop h.zero hw)
 
 theorem drun_sound (evs : List Ev) (sp : St × Parked) (hop : ∀ e ∈ evs, e.op.isMutate = false)
-    (h : Sound sp.1) : Sound (drun sp evs).1 := by
+    (h : Sound sp.1) (hw : WrOK sp.1) : Sound (drun sp evs).1 := by
   induction evs generalizing sp with
   | nil => exact h
   | cons e evs ih =>
     exact ih _ (fun e' he' => hop e' (List.mem_cons_of_mem _ he'))
-      (dstep_sound sp e (hop e (List.mem_cons_self ..)) h)
+      (dstep_sound sp e (hop e (List.mem_cons_self ..)) h hw) (dstep_wrOK sp e hw)
 
 end Rain.Loop
